@@ -118,6 +118,9 @@ def gen_rich(ctx, i):
             mix_raw_marks(rng, p)
     if kind == 2:
         ks = rng.sample(spec.ALL_EP_KINDS, rng.choice([1, 2, 3]))
+        if i % 6 == 2:
+            # both optional entry points overridden, `reply` written above `migrate` (the reversed attribute block swaps them)
+            ks = ["reply"] + [k for k in ks if k not in ("reply", "migrate")][:1] + ["migrate"]
         p["overrides"] = [{"kind": k, "fn": f"ov_{k}", "msg": "svmon::OvMsg"} for k in ks]
         for part in p["parts"]:
             kinds = ["instantiate", "exec", "query", "sudo"] if part["id"] == "c" else ["exec", "query", "sudo"]
@@ -317,8 +320,9 @@ def twins(ctx):
                 c07.check_prog(ctx, r, p, 3)
                 c08.check_prog(ctx, r, p, 3)
             else:
-                # the recorded duplicate-key finding of C03 is not an order effect: those document classes are left to C03
-                c03.check_prog(ctx, r, p, 1, skip_classes=("dupkey-top-same", "dupkey-top-bad-first", "dupkey-top-bad-last", "dupkey-body"))
+                # the recorded duplicate-key / array-for-struct findings of C03 are not order effects: those document classes are left to C03
+                c03.check_prog(ctx, r, p, 1, skip_classes=("dupkey-top-same", "dupkey-top-bad-first", "dupkey-top-bad-last", "dupkey-body",
+                                                                "struct-as-long-seq", "seq-for-struct"))
     fam.each_bin(per_bin)
     ctx.cov["compiled_twins"] = len(fam.progs)
     ctx.sample({"twin_example": {"program": fam.progs[-1]["twin_of"], "orders": fam.progs[-1]["_render_kw"]["order"]}})
